@@ -453,6 +453,8 @@ def run(chk):
     jobs.sort(key=lambda j: -(sum(0 if x else 1 for x in j[1][1]) * 3 + (j[1][2] == "rev") + (j[1][3] == "c<0"))
               if j[0] == "job_getitem_slice" else 0)
     chk.parallel("contracts.C01", "dispatch", jobs)
+    if not only or "bounded" in only:
+        chk.bounded("bounded.C01")
     chk.assume("Python int is unbounded: mathematical integers are exact")
     chk.assume("str slicing parent[a:b:c] follows CPython PySlice_AdjustIndices (speclib.py_slice_indices, "
                "cross-checked against slice.indices every run)")
